@@ -18,3 +18,8 @@ package xstar
 //@   ghost body0 = result.Body at call:RecvMsg#1
 //@   at call:Free#1 assert len(body0) < 4 || body0[0] != 0 || body0[1] != 0 || body0[2] != 0 || body0[3] >= s.ttl
 //@   at select#2 assert selidx == 0 ==> len(body0) >= 4 && body0[0] == 0 && body0[1] == 0 && body0[2] == 0 && body0[3] < at("call:RecvMsg#1", s.ttl)
+//@
+//@ func (*socket).SendMsg
+//@   loop 1 complete
+//@   at call:Free#1 assert len(old(m.Header)) != 4
+//@   at select#1 assert len(old(m.Header)) == 4
